@@ -342,6 +342,11 @@ func (f *fetcher) dedupFetch(req *http.Request, key cache.CacheKey, clientHd *he
 		fetched, err = f.fetchUpstream(req, key, clientHd)
 		if errors.Is(err, ErrNotCacheable) {
 			slog.Debug("Response could not be stored, falling back to direct fetch", "url", req.URL)
+			if !clientHd.Range.IsPresent() {
+				// The origin refused the range (416) and answered the retry without it: ask the same way
+				// again, or the client gets the refusal instead of the answer that could not be stored.
+				req.Header.Del("Range")
+			}
 			return f.fetchDirectlyFromUpstream(req)
 		}
 		return fetched, err
